@@ -1,4 +1,5 @@
 """C05 - filtered reads never lose a qualifying row: row-group pruning is sound (DESIGN.md 5/C05)."""
+import zlib
 import itertools
 
 import numpy as np
@@ -179,7 +180,7 @@ def prepare(case):
     colinfo = {}
     for c in flat.columns:
         if c == "rid" and len(flat.columns) > 2:
-            if hash(c + case["id"]) % 3:
+            if zlib.crc32((c + case["id"]).encode()) % 3:
                 continue
         s = flat[c]
         raw = s.astype(object).tolist() if not (s.dtype.kind in "Mm" if hasattr(s.dtype, "kind") else False) else list(s)
